@@ -129,6 +129,28 @@ type ttOutB struct {
 	Big   int64            `json:"big,omitempty"`
 }
 
+// an output type with its own MarshalJSON: the JSON is not what the Go type suggests (an array, a string,
+// null), or marshalling fails
+type ttOutMJ struct {
+	Mode string `json:"mode"`
+	V    int64  `json:"v"`
+}
+
+func (o ttOutMJ) MarshalJSON() ([]byte, error) {
+	switch o.Mode {
+	case "arr":
+		return []byte(fmt.Sprintf("[%d]", o.V)), nil
+	case "str":
+		return []byte(fmt.Sprintf("%q", strconv.FormatInt(o.V, 10))), nil
+	case "null":
+		return []byte("null"), nil
+	case "err":
+		return nil, errors.New("ttOutMJ: cannot be marshalled")
+	}
+	type plain ttOutMJ
+	return json.Marshal(plain(o))
+}
+
 // what the handler has been told to do for the current call, and what it saw
 type ttCallSpec struct {
 	out     string // "nilptr" | "nilany" | raw JSON to unmarshal into Out
@@ -315,7 +337,7 @@ var ttRegs = []ttReg{
 	ttMk[ttInA, []int64]("A/SI"), ttMk[ttInA, []ttDeep]("A/SD"), ttMk[ttInA, string]("A/S"),
 	ttMk[ttInA, int64]("A/I"), ttMk[ttInA, float64]("A/F"), ttMk[ttInA, bool]("A/BO"),
 	ttMk[ttInA, map[string]any]("A/M"), ttMk[ttInA, map[string]int64]("A/MI"), ttMk[ttInA, any]("A/Y"),
-	ttMk[ttInA, *int64]("A/PI"),
+	ttMk[ttInA, *int64]("A/PI"), ttMk[ttInA, ttOutMJ]("A/MJ"),
 	ttMk[ttInB, ttOutB]("B/B"), ttMk[map[string]any, any]("M/Y"), ttMk[ttInE, map[string]any]("E/M"),
 	ttMk[any, any]("Y/Y"), ttMk[ttInB, []int64]("B/SI"),
 	ttMk[ttInC, ttOutA]("C/A"), ttMk[*ttInC, ttOutA]("PC/A"), ttMk[ttInC, ttOutC]("C/C"), ttMk[ttInC, *ttOutC]("C/PC"),
@@ -2307,9 +2329,13 @@ func (w *ttWorld) callPrep1(toks []string, run *ttCallRun) (op string, obs strin
 		}
 		hb, e := json.Marshal(pv.Elem().Interface())
 		if e != nil {
-			return op, "harness-error " + hxs("cannot marshal the output: "+e.Error()), tags
+			// json.Marshal refuses the value the handler is going to return
+			hb = nil
+			op += " hout=!"
+			tags = append(tags, "out:marshal-error")
+		} else {
+			op += " hout=x" + hx(hb)
 		}
-		op += " hout=x" + hx(hb)
 		if hv, e := ttParse(hb); e == nil && ttHasU64(hv) {
 			tags = append(tags, "u64-out")
 		}
@@ -2851,6 +2877,8 @@ func (c *ttCaseGen) addCallWith(t *ttGenTool, args, atag, out string) {
 	}
 	switch {
 	case out != "":
+	case t.reg.name == "A/MJ" && g.coin(0.7):
+		out = "x" + hxs(fmt.Sprintf(`{"mode":%q,"v":%d}`, g.pick("arr", "str", "null", "err", "obj"), g.smallInt()))
 	case t.outTy.K == "ptr" && g.coin(0.3):
 		out = "nilptr"
 	case t.outTy.K == "any" && g.coin(0.2):
@@ -2949,7 +2977,7 @@ func (g *ttGen) session() string {
 // the registrations of the version matrix: one per kind of output (object, nil pointer to an object,
 // array, array of objects, string, number — signed, unsigned, float —, boolean, nil pointer to a number,
 // map, `any`)
-var ttMatrixRegs = []string{"A/A", "A/PA", "A/SI", "A/SD", "A/S", "A/I", "A/UI", "A/F", "A/BO", "A/PI", "A/M", "A/Y"}
+var ttMatrixRegs = []string{"A/A", "A/PA", "A/SI", "A/SD", "A/S", "A/I", "A/UI", "A/F", "A/BO", "A/PI", "A/M", "A/MJ", "A/Y"}
 
 // the explicit output schemas of the matrix for Out = any: one per JSON root type
 var ttMatrixAnySchemas = []string{`{"type":"object"}`, `{"type":"array"}`, `{"type":"string"}`, `{"type":"number"}`,
